@@ -417,9 +417,22 @@ def run(ctx):
         "another directory in two probes)",
     ]
 
-    # ---- (1) the protocol ------------------------------------------------------------------------------
+    # ---- (1) the protocols -----------------------------------------------------------------------------
+    # runs that must FAIL on the model: the formulas are not vacuous (started now, joined after the enumeration)
+    side: dict = {}
+
+    def _side(key, tla, cfgname, tag):
+        side[key] = _tlc(ctx, tla, os.path.join(EXT, cfgname), tag=tag, workers=3, timeout=900, deadlock=False, count=False)
+
+    ths = [threading.Thread(target=_side, args=("nofin", SAVEMC, "ExtLayoutSaveMC_nofinally.cfg", "nofin")),
+           threading.Thread(target=_side, args=("stdev", MC, "ExtLayoutMC_stdev.cfg", "stdev")),
+           threading.Thread(target=_side, args=("loadafter", RESAVE, "ExtLayoutResaveMC_loadafter.cfg", "rs-loadafter")),
+           threading.Thread(target=_side, args=("stpershard", RESAVE, "ExtLayoutResaveMC_stpershard.cfg", "rs-stpershard"))]
+    for t in ths:
+        t.start()
+
     r1 = _tlc(ctx, SAVEMC, os.path.join(EXT, "ExtLayoutSaveMC.cfg"), tag="save", workers=_nproc(), timeout=600,
-                 deadlock=False, coverage=True)
+              deadlock=False, coverage=True)
     _design_ok(r1, "save protocol: Restored / StepwiseIsLayout / NoEarlyAssign / FailureSurfaces")
     want = ("Enter", "Split", "Shard", "Place", "Write", "Assign", "Serialize", "Finally")
     acts = {k.split("!")[1]: v[0] for k, v in r1.coverage.items()
@@ -437,33 +450,6 @@ def run(ctx):
     ctx.extra["resave_protocol_action_coverage"] = actr
     if len(actr) < len(wantr) or min(actr.values()) == 0:
         raise MachineryError(f"re-save protocol: an action was never taken: {actr}")
-    # runs that must FAIL on the model: the formulas are not vacuous (side by side with the enumeration below)
-    side: dict = {}
-
-    def _side(key, tla, cfgname, tag):
-        side[key] = _tlc(ctx, tla, os.path.join(EXT, cfgname), tag=tag, workers=2, timeout=600, deadlock=False, count=False)
-
-    ths = [threading.Thread(target=_side, args=("nofin", SAVEMC, "ExtLayoutSaveMC_nofinally.cfg", "nofin")),
-           threading.Thread(target=_side, args=("stdev", MC, "ExtLayoutMC_stdev.cfg", "stdev")),
-           threading.Thread(target=_side, args=("loadafter", RESAVE, "ExtLayoutResaveMC_loadafter.cfg", "rs-loadafter")),
-           threading.Thread(target=_side, args=("stpershard", RESAVE, "ExtLayoutResaveMC_stpershard.cfg", "rs-stpershard"))]
-    for t in ths:
-        t.start()
-    for t in ths:
-        t.join()
-    r1b, r1c = side["nofin"], side["stdev"]
-    if "Restored" not in r1b.violated:
-        raise MachineryError("Restored is vacuous: removing the finally block from the model does not break it")
-    if "ResaveBytes" not in side["loadafter"].violated:
-        raise MachineryError("re-save protocol: loading the small external tensors AFTER the destination was replaced "
-                             "is not refuted on the model (ResaveBytes vacuous)")
-    ctx.extra["design_level"] = {
-        "Restored without the finally block": sorted(r1b.violated),
-        "safetensors shard rule as implemented (current_shard_size > 0)": sorted(r1c.violated),
-        "re-save, small external tensors loaded after the write (refuted ordering)": sorted(side["loadafter"].violated),
-        "re-save, safetensors shards materialised per shard (as implemented)": sorted(side["stpershard"].violated)}
-    if "InvOversizeOnlyAlone" not in r1c.violated:
-        ctx.note("the safetensors shard rule 'as implemented' no longer breaks OversizeOnlyAlone in the model")
 
     # ---- (2) enumeration ---------------------------------------------------------------------------------
     cfg = _cfg_with(ctx.scratch, "ExtLayoutMC.cfg", "enum.cfg", MaxLen=tp["maxlen"])
@@ -475,6 +461,18 @@ def run(ctx):
     if not cfgs or len(names["raw"]) < 3 or len(names["st"]) < 3:
         raise MachineryError(f"enumeration output incomplete: {len(cfgs)} configurations")
     ctx.extra["configurations_enumerated"] = len(cfgs)
+    for t in ths:
+        t.join()
+    if "Restored" not in side["nofin"].violated:
+        raise MachineryError("Restored is vacuous: removing the finally block from the model does not break it")
+    if "ResaveBytes" not in side["loadafter"].violated:
+        raise MachineryError("re-save protocol: loading the small external tensors AFTER the destination was replaced "
+                             "is not refuted on the model (ResaveBytes vacuous)")
+    ctx.extra["design_level"] = {
+        "Restored without the finally block": sorted(side["nofin"].violated),
+        "safetensors shard rule as implemented before 2c313a1 (current_shard_size > 0)": sorted(side["stdev"].violated),
+        "re-save, small external tensors loaded after the write (refuted ordering)": sorted(side["loadafter"].violated),
+        "re-save, safetensors shards materialised per shard (as implemented)": sorted(side["stpershard"].violated)}
     feat_cfg = {"padding": 0, "multi_shard": 0, "oversize_shard": 0, "mixed": 0, "index": 0, "all_inline": 0}
     for k, Ls in cfgs:
         L = json.loads(Ls)
